@@ -19,6 +19,26 @@ TInit == /\ tid \in 1..NTraces
          /\ hist = <<>>
          /\ sel = [f \in Files |-> {}]
 
+RegStep(tr, e) ==
+  \* a reader is registered while the process runs
+  /\ Register(e.name)
+  /\ Chk(tr, l + 1, "registry after registerreader", tr.regs[e.ra], registry')
+
+OpenStep(tr, e) ==
+  /\ Open(e.f)
+  \* selection is the one a fresh process makes: a function of the file
+  \* (as long as nothing was registered since the process started)
+  /\ (registry = Reg0 => Chk(tr, l + 1, "selected reader", e.cls, Sel0(e.f)))
+  \* ... and always the first accepting candidate of the CURRENT registry
+  /\ Chk(tr, l + 1, "selected reader (current registry)", e.cls, Select(registry, e.f))
+  \* the global registry is not changed by an open
+  /\ Chk(tr, l + 1, "registry after open", tr.regs[e.ra], registry')
+  \* the data presented do not depend on history ...
+  /\ Chk(tr, l + 1, "content vs fresh-process content", e.digest, Env.digest0[e.f])
+  \* ... and equal what the explicitly named format presents
+  /\ (e.f \in DOMAIN Env.explicit =>
+        Chk(tr, l + 1, "content vs explicit format", e.digest, Env.explicit[e.f]))
+
 TStep ==
   LET tr == Traces[tid]
       e == tr.steps[l + 1]
@@ -26,18 +46,8 @@ TStep ==
      /\ l' = l + 1 /\ tid' = tid
      \* the process starts from the measured initial registry
      /\ (l = 0 => Chk(tr, 0, "initial registry", registry, Reg0))
-     /\ Chk(tr, l + 1, "registry before open", tr.regs[e.rb], registry)
-     /\ Open(e.f)
-     \* selection is the one a fresh process makes: a function of the file
-     /\ Chk(tr, l + 1, "selected reader", e.cls, Sel0(e.f))
-     /\ Chk(tr, l + 1, "selected reader (current registry)", e.cls, Select(registry, e.f))
-     \* the global registry is not changed by an open
-     /\ Chk(tr, l + 1, "registry after open", tr.regs[e.ra], registry')
-     \* the data presented do not depend on history ...
-     /\ Chk(tr, l + 1, "content vs fresh-process content", e.digest, Env.digest0[e.f])
-     \* ... and equal what the explicitly named format presents
-     /\ (e.f \in DOMAIN Env.explicit =>
-           Chk(tr, l + 1, "content vs explicit format", e.digest, Env.explicit[e.f]))
+     /\ Chk(tr, l + 1, "registry before the call", tr.regs[e.rb], registry)
+     /\ IF e.f = "REG" THEN RegStep(tr, e) ELSE OpenStep(tr, e)
      /\ (l + 1 = Len(tr.steps) => TrAccept(tr))
 
 TSpec == TInit /\ [][TStep]_tvars
